@@ -35,6 +35,7 @@ class Module:
         from . import localnames, normalise
         normalise.aug_assign(self.tree)
         normalise.fstrings_to_format(self.tree)
+        normalise.empty_displays(self.tree)
         normalise.flatten_else(self.tree)
         normalise.merge_nested_ifs(self.tree)
         self.funcs = {}  # qualname -> FunctionDef
@@ -43,6 +44,7 @@ class Module:
         known = normalise.reference_functions().get(relpath)
         self.helpers_inlined = normalise.inline_new_helpers(self, known)
         self.helpers_inlined += normalise.nested_def_to_lambda(self, known)
+        self.helpers_inlined += normalise.method_value_to_closure(self, known)
         if self.helpers_inlined:
             normalise.flatten_else(self.tree)
             self.funcs, self.classes = {}, {}
